@@ -160,9 +160,13 @@ class CacheWarmer(Entity):
         self._keys_warmed = 0
         self._keys_failed = 0
 
-        # Create initial warming event
+        # Create initial warming event, stamped with the current time when the
+        # warmer is already attached to a running simulation (a fixed
+        # Instant.Epoch stamp lies in the past for any restart after t=0 and
+        # the engine would discard it).
+        start_time = self._clock.now if self._clock is not None else Instant.Epoch
         return Event(
-            time=Instant.Epoch,  # Will be scheduled at current time
+            time=start_time,
             event_type="cache_warm",
             target=self,
             context={"action": "warm_next"},
